@@ -165,6 +165,7 @@ func init() {
 			form := it % 3
 			text, fname := renderDoc(doc, form)
 			c := sx.L(sx.A(fname), sx.A(text))
+			noteCase("C08", text)
 			p, err := pipeline.Parse(strings.NewReader(text))
 			if err != nil && !warning.Is(err) {
 				oracleFail("C08", "parse-error", c, err.Error())
